@@ -117,8 +117,8 @@ Open ==
   /\ pend.k \notin NoParenKinds       \* the scanner cannot emit "(" after Description
   /\ Log(OpenSym)
   /\ UNCHANGED inc
-  /\ IF pend = NoDir
-     THEN st' = "err_open" /\ UNCHANGED <<chain, pend>>
+  /\ IF pend = NoDir \/ pend.x          \* ... and so is a second "(" for one directive (fix for F-46: it used to be
+     THEN st' = "err_open" /\ UNCHANGED <<chain, pend>>      \* forgotten, and one ")" then closed both)
      ELSE pend' = [pend EXCEPT !.x = TRUE] /\ UNCHANGED <<chain, st>>
 
 Close ==
@@ -174,7 +174,7 @@ Next ==
         \* valid-only walks: ONE random placeable keyword, so that "(" and ")" are taken as often as keywords
         \/ (ValidOnly /\ {s \in KwSyms : Placeable(s.k, s.p)} # {}
              /\ LET s == RandomElement({x \in KwSyms : Placeable(x.k, x.p)}) IN Keyword(s.k, s.p))
-        \/ ((ValidOnly => pend # NoDir /\ AdmitsOf(pend.k) # {}) /\ Open)
+        \/ ((ValidOnly => pend # NoDir /\ ~pend.x /\ AdmitsOf(pend.k) # {}) /\ Open)
         \/ ((ValidOnly => Flushed # RejectCh /\ HasOpenParen(Flushed)) /\ Close)
         \/ FileBegin
   \/ ((ValidOnly => Flushed # RejectCh /\ ~HasOpenParen(Flushed)) /\ FileEnd)
@@ -231,7 +231,7 @@ Run(mode, d, i, ch, pd, par, devs, nin) ==
               ELSE IF d[i].k = "JSIGHT" /\ nin > 0 THEN R("err_jsight_inc", i, par2)
               ELSE Run(mode, d, i + 1, fl, [k |-> d[i].k, x |-> FALSE, p |-> d[i].p, id |-> i], par2, devs2, nin)
          [] d[i].t = "open" ->
-              IF pd = NoDir THEN R("err_open", i, par)
+              IF pd = NoDir \/ pd.x THEN R("err_open", i, par)
               ELSE Run(mode, d, i + 1, ch, [pd EXCEPT !.x = TRUE], par, devs2, nin)
          [] d[i].t = "close" ->
               IF fl = RejectCh THEN R("rej_ctx", pd.id, par)
